@@ -202,7 +202,21 @@ fn perform(run: &mut Run, bad: &Bad) -> Option<(String, std::io::Result<()>)> {
             let rows: Vec<Vec<Value>> = (0..extra).map(|i| vec![Value::Int(start + i), Value::from(format!("over the limit {i}"))]).collect();
             Some((format!("insert(Full, {extra} more rows)"), run.pkg().insert_rows(Insert::into("Full").rows(rows))))
         }
-        Bad::CreateOverOrphan(_) => Some(("create_table(\"Ghost\"), about which a catalog table holds an orphan row".into(), run.pkg().create_table("Ghost", vec![key_col(), Column::build("Name").nullable().string(16)]))),
+        Bad::CreateOverOrphan(k) => {
+            // the definition itself is storable (0) or fails late in one of
+            // the ways of CreateLate (1..=6)
+            let good = Column::build("Name").nullable().string(16);
+            let (how, cols): (&str, Vec<Column>) = match (k / 3) % 7 {
+                0 => ("storable definition", vec![key_col(), good]),
+                1 => ("column name of 40 characters", vec![key_col(), good, Column::build(long_ident(40)).nullable().int16()]),
+                2 => ("width 300", vec![key_col(), good, Column::build("w").nullable().string(300)]),
+                3 => ("range from i32::MIN", vec![key_col(), good, Column::build("r").nullable().range(i32::MIN, 5).int32()]),
+                4 => ("malformed foreign key", vec![key_col(), good, Column::build("f").nullable().foreign_key("not an identifier", 1).int16()]),
+                5 => ("enumeration value with ';'", vec![key_col(), good, Column::build("e").nullable().enum_values(&["a;b", "c"]).string(0)]),
+                _ => ("foreign key column 0", vec![key_col(), good, Column::build("f").nullable().foreign_key("Other", 0).int16()]),
+            };
+            Some((format!("create_table(\"Ghost\", {how}), about which a catalog table holds an orphan row"), run.pkg().create_table("Ghost", cols)))
+        }
         Bad::NoValidation(kind, n) => match kind % 10 {
             8 => Some(("create_table(Fresh, valid columns) on a database without _Validation".into(), run.pkg().create_table("Fresh", vec![key_col(), Column::build("Name").nullable().string(16)]))),
             9 => Some(("create_table(Fresh, no key column) on a database without _Validation".into(), run.pkg().create_table("Fresh", vec![Column::build("Name").nullable().string(16)]))),
@@ -646,7 +660,7 @@ fn bad_strategy() -> impl Strategy<Value = Bad> {
 pub fn run(ctx: &Ctx) -> Report {
     let mut rep = Report::new(
         "exploration",
-        "a generated valid prefix (tables, rows, streams, summary, code page, reopen) to reach a state, then one invalid call from a catalogue of 26 kinds: unknown / invalid / reserved names, arity 0..33, one invalid value (each way of being invalid) at the first, middle or last row of a batch, duplicate key against the table and inside the batch, unknown column in SET or WHERE, key-colliding update, stream calls with refused names or on missing streams, and late failures (column names of 33..64 characters, table names of 33..60, widths above 255, enumerations beyond 255 characters or with ';', ranges including i32::MIN, malformed foreign keys; the same late-failing creations on a foreign database that has no _Validation table; creation under a name about which a catalog table holds an orphan row). Oracle when the call returns Err: full API snapshot (including the three catalog tables) before == after; snapshot after flush + reopen before == after; string-pool entries seen by the independent decoder before == after and the saved file still passes the C08 file checks. Non-trivial = the call returned Err; distinct by (state, call).",
+        "a generated valid prefix (tables, rows, streams, summary, code page, reopen) to reach a state, then one invalid call from a catalogue of 26 kinds: unknown / invalid / reserved names, arity 0..33, one invalid value (each way of being invalid) at the first, middle or last row of a batch, duplicate key against the table and inside the batch, unknown column in SET or WHERE, key-colliding update, stream calls with refused names or on missing streams, and late failures (column names of 33..64 characters, table names of 33..60, widths above 255, enumerations beyond 255 characters or with ';', ranges including i32::MIN, malformed foreign keys; the same late-failing creations on a foreign database that has no _Validation table; creation, with a storable and with six late-failing definitions, under a name about which a catalog table holds an orphan row). Oracle when the call returns Err: full API snapshot (including the three catalog tables) before == after; snapshot after flush + reopen before == after; string-pool entries seen by the independent decoder before == after and the saved file still passes the C08 file checks. Non-trivial = the call returned Err; distinct by (state, call).",
     );
     rep.assumptions.push("a call that unexpectedly returns Ok is not judged here (it belongs to C06 / C07 / C20)".into());
     let mut st = Stats::new();
